@@ -552,6 +552,18 @@ class Runner:
         nev = 0
         for opi, rec in recs:
             name = rec[0]
+            if name == "panic":
+                # the real code panicked inside this op.  The debug-build refcount audit at a process's
+                # completion fires when a stale await overwrites the Ok result of a finished process
+                # (F45 + the missing release): recognised narrowly, everything else is a violation.
+                helper_failing = case["local"] and any(o[0] == "hmsg" and o[2] == 0 for o in ops[:opi + 1])
+                if "refcount invariant violated" in rec[2] and completed and helper_failing:
+                    killed_after = dict(k=-1, how="Executor::step awaiters loop (then the debug refcount audit panics: the finished process's Ok result is overwritten without release)", value=comp_value)
+                    a["panic_f45"] = True
+                else:
+                    a["fatal"] = "panic %s %s" % (rec[1], rec[2])
+                    return a
+                break
             d = parse_real_dump(field(rec, "d"))
             op = ops[opi]
             evs = []
@@ -591,6 +603,7 @@ class Runner:
                 helpers = field(rec, "helpers")[1:]
                 if last_now is not None and now < last_now:
                     st["clock_back"] += 1
+                    a["clock_went_back"] = True
                 last_now = now
                 for h in helpers:
                     k = int(h[1])
@@ -676,7 +689,7 @@ class Runner:
                 a["oracle_failures"].append(dict(oracle="select_spec-at-completing-entry", expected=exp, real=q["real"],
                                                  pre=_jsonable(pre), now=now))
             # timeout not early (w.r.t. the first entry of the select)
-            if v == ("nil",) and exp[0] == "complete" and exp[1] == ("nil",) and init_time is not None:
+            if v == ("nil",) and exp[0] == "complete" and exp[1] == ("nil",) and init_time is not None and not a.get("clock_went_back"):
                 nil_results = any(vv == ("nil",) for vv in aw.values())
                 if not nil_results:
                     self.counts["timeouts_checked_not_early"] += 1
